@@ -451,7 +451,22 @@ func (w *World) RelayContent(t string, l *Ledger) (*wire.MsgTx, bool) {
 		if len(w.Relayed) == 0 || w.RelayedKind[len(w.Relayed)-1] == "dup" || w.RelayedKind[len(w.Relayed)-1] == "rb" {
 			return nil, false
 		}
-		return w.Relayed[len(w.Relayed)-1], true
+		last := w.Relayed[len(w.Relayed)-1]
+		// a node relays a transaction again only while it is still valid: not mined, every
+		// input unspent on the best chain or created by a transaction that is still pending
+		if w.onChain(last, l) {
+			return nil, false
+		}
+		for _, in := range last.TxIn {
+			if c := l.Coins[in.PreviousOutPoint]; c != nil {
+				if c.SpentAt != 0 {
+					return nil, false
+				}
+			} else if _, pend := w.Pend.Txs[in.PreviousOutPoint.Hash]; !pend {
+				return nil, false
+			}
+		}
+		return last, true
 	}
 	return nil, false
 }
